@@ -106,6 +106,14 @@ def gen_op(R: Draw, g: DocGen, lib: Any, doc_node: Any, kinds: list[str] | None 
         return {"op": kind, "from": a, "to": b, "node": _node_content(R, g)[0]}
     if kind in ("add_mark", "remove_mark"):
         a, b = _positions(R, n, 16)
+        if use:
+            # ranges that start and end inside inline content (splitting text, possibly crossing blocks)
+            blocks = [(p + 1, p + 1 + nd.content.size) for p, nd in _node_positions(doc_node) if nd.inline_content and nd.content.size]
+            if blocks:
+                i = R.int(0, len(blocks) - 1)
+                j = min(len(blocks) - 1, i + R.weighted([(0, 6), (1, 3), (2, 1)]))
+                a = R.int(blocks[i][0], blocks[i][1])
+                b = R.int(max(a, blocks[j][0]), blocks[j][1]) if blocks[j][1] >= a else a
         if kind == "add_mark":
             return {"op": kind, "from": a, "to": b, "mark": g.mark(R, R.choice(rs.mark_names))}
         how = R.weighted([("mark", 4), ("type", 3), ("all", 2)])
